@@ -11,5 +11,5 @@ Separate Extraction
   TableInterp.table_interp
   PySM.gen_py PySM.parse_indent PySM.run_py PySM.code_lines
   SmlTT.gen_sml
-  CsSM.cs_handler CsSM.cs_classes CsSM.cs_handlers CsSM.parse_braces TableInterp.step_rows_quiet
+  CsSM.cs_handler CsSM.cs_classes CsSM.cs_handlers CsSM.parse_braces TableInterp.step_rows_quiet TableInterp.table_interp_quiet CsSM.run_cs
   Decls.decls_file Decls.refs_cpp Decls.refs_cs.
